@@ -23,6 +23,8 @@ Skeleton == {
   D(<<"r,s">>), F(<<"r,s", "q.slice">>, "slice"), F(<<"k,l.slice">>, "slice"),
   F(<<"UP.SLICE">>, "slice"), F(<<"d", "Mixed.Slice">>, "slice"), F(<<"d", "sub", "v.SLICE">>, "slice"), F(<<"g", "w.sLICE">>, "slice"),
   D(<<"g">>), F(<<"g", "w.slice">>, "slice"), F(<<"g", "bad2.slice">>, "bad"),
+  \* a link below a reference directory to a directory that is also reachable otherwise: its files are the same files
+  L(<<"g", "lsub">>, <<"..", "d", "sub">>),
   \* directories whose own name ends in ".slice": still directories (an error as a source, walked as a reference)
   D(<<"pkg.slice">>), F(<<"pkg.slice", "in.slice">>, "slice"), D(<<"d", "sub", "deep.slice">>), F(<<"d", "sub", "deep.slice", "v.slice">>, "slice"),
   L(<<"la.slice">>, <<"a.slice">>), L(<<"ld">>, <<"d">>), L(<<"dangling.slice">>, <<"nothing.slice">>), L(<<"lnk">>, <<"a.slice">>)
